@@ -53,22 +53,14 @@ def gen(rng, tier):
     prims = list(PRIMS)
     alltypes = bn + prims
     npairs = 6000 if tier == "thorough" else 900
-    reps = 6 if tier == "thorough" else 3
+    reps = 8 if tier == "thorough" else 2
     pairs = set()
-    if tier == "thorough":
-        for s in alltypes:
-            for d in alltypes:
-                if not (s in PRIMS and d in PRIMS):
-                    pairs.add((s, d))
-        pairs = sorted(pairs)
-    else:
-        while len(pairs) < npairs:
-            s = rng.choice(alltypes)
-            d = rng.choice(alltypes)
-            if s in PRIMS and d in PRIMS:
-                continue
-            pairs.add((s, d))
-        pairs = sorted(pairs)
+    # every ordered (source, target) pair in both tiers: a change may be keyed to one particular combination
+    for s in alltypes:
+        for d in alltypes:
+            if not (s in PRIMS and d in PRIMS):
+                pairs.add((s, d))
+    pairs = sorted(pairs)
     for s, d in pairs:
         for _ in range(reps):
             t, v = src_value(rng, s, d)
